@@ -524,6 +524,8 @@ def _gadget_outputs(acc, fn, case, feats, c, before, res, add_outputs, rl):
 
 
 def VARIANT_PRED(t, v):
+    if v != 'deepcopy':
+        return False
     k = t.get('kind')
     return k == 'gadgets' or (k == 'sub' and t['na'] + t['nb'] <= 4) or (k == 'div' and t['n'] <= 3) or (k == 'sqrt' and t['n'] <= 4) or (k == 'equal' and t['n'] <= 3) or (k == 'plus' and t['inp'] <= 2)
 
